@@ -263,3 +263,82 @@ func soilStateCmd(args []string) {
 		stdout.Flush()
 	}
 }
+
+// ---------------------------------------------------------------------------------------------
+//	vh inputstate -work <examples tree> -lines <file> [-from k] [-n 12]
+// runs each batch line in-process and prints what the REAL Input left in the rotation arrays and the drain
+// parameters, captured by the probe on the first simulated day:
+// {"line":k,"crop":[..],"variety":[..],"saat":[..],"ernte":[..],"ernte2":[..],"saat1":[..],"saat2":[..],
+//  "odu":[hex],"jn":[hex],"ertr":[hex],"itag":..,"beginn":..,"draidep":..,"draifak":hex,"success":..,"err":..}
+
+func init() { commands["inputstate"] = inputStateCmd }
+
+func inputStateCmd(args []string) {
+	fs := flag.NewFlagSet("inputstate", flag.ExitOnError)
+	work := fs.String("work", ".", "scratch copy of the examples tree")
+	linesFile := fs.String("lines", "", "file with batch lines")
+	from := fs.Int("from", 0, "first line index")
+	n := fs.Int("n", 12, "rotation entries to print")
+	fs.Parse(args)
+	raw, err := os.ReadFile(*linesFile)
+	if err != nil {
+		panic(err)
+	}
+	var lines []string
+	for _, l := range splitLinesKeep(string(raw)) {
+		if len(l) > 0 {
+			lines = append(lines, l)
+		}
+	}
+	for k := *from; k < len(lines); k++ {
+		fmt.Fprintf(os.Stderr, "JOB %d\n", k)
+		var o jobj
+		hermes.VerifProbe = func(stage string, zeit, subd int, wdt float64, g *hermes.GlobalVarsMain, w *hermes.WaterSharedVars, nn *hermes.NitroSharedVars) {
+			if o != nil {
+				return
+			}
+			o = jobj{"line": k, "itag": g.ITAG, "beginn": g.BEGINN, "draidep": g.DRAIDEP, "draifak": hx(g.DRAIFAK)}
+			var crop, variety []string
+			var saat, ernte, ernte2, saat1, saat2 []int
+			var odu, jn, ertr []float64
+			for i := 0; i < *n; i++ {
+				c := ""
+				if g.FRUCHT[i] != 0 {
+					c = g.CropTypeToString(g.FRUCHT[i], false)
+				}
+				crop = append(crop, c)
+				variety = append(variety, g.CVARIETY[i])
+				saat, ernte, ernte2 = append(saat, g.SAAT[i]), append(ernte, g.ERNTE[i]), append(ernte2, g.ERNTE2[i])
+				saat1, saat2 = append(saat1, g.SAAT1[i]), append(saat2, g.SAAT2[i])
+				odu, jn, ertr = append(odu, g.ODU[i]), append(jn, g.JN[i]), append(ertr, g.ERTR[i])
+			}
+			o["crop"], o["variety"], o["saat"], o["ernte"], o["ernte2"], o["saat1"], o["saat2"] = crop, variety, saat, ernte, ernte2, saat1, saat2
+			o["odu"], o["jn"], o["ertr"] = hxs(odu), hxs(jn), hxs(ertr)
+		}
+		res := runProject(*work, splitArgs(lines[k]))
+		hermes.VerifProbe = nil
+		if o == nil {
+			o = jobj{"line": k}
+		}
+		o["success"], o["err"] = res.Success, res.Err
+		emit(o)
+		stdout.Flush()
+	}
+}
+
+func splitLinesKeep(s string) []string {
+	var out []string
+	cur := ""
+	for _, c := range s {
+		if c == '\n' {
+			out = append(out, cur)
+			cur = ""
+		} else if c != '\r' {
+			cur += string(c)
+		}
+	}
+	if cur != "" {
+		out = append(out, cur)
+	}
+	return out
+}
